@@ -170,6 +170,9 @@ func step(stI, inI, outI interface{}) (bool, interface{}) {
 	case "addevent":
 		n.Events = append(n.Events, in.Arg)
 	case "recorderror":
+		if in.Code == 1 {
+			break // Error() panicked before anything was recorded
+		}
 		n.Events = append(n.Events, "exception:"+in.Arg)
 	case "addlink":
 		n.Links = append(n.Links, in.Arg)
@@ -383,6 +386,12 @@ func (w *world) endedBeforeShutdown(sp int) bool {
 	return owed
 }
 
+// panickyErr is an error whose Error method panics.
+type panickyErr struct{}
+
+//go:norace
+func (panickyErr) Error() string { panic("Error() of a broken error value") }
+
 type planOp struct {
 	in    opIn
 	sleep bool
@@ -429,6 +438,12 @@ func (engine) Body(r *simdrv.Run) {
 				in.Kind, in.Arg = "setname", u("name")
 			case 9:
 				in.Kind, in.Arg = "recorderror", u("err")
+				if r.Cfg(5) == 0 {
+					// an error value whose Error method panics (a typed nil pointer, say): the panic reaches the
+					// caller, the span is unchanged and stays usable (after seeded change C10-l, which releases
+					// the span lock explicitly instead of by defer: every later call on the span blocks)
+					in.Code = 1
+				}
 			case 10:
 				in.Kind = "isrecording"
 			default:
@@ -536,6 +551,14 @@ func (engine) Body(r *simdrv.Run) {
 				case "setname":
 					sp.SetName(in.Arg)
 				case "recorderror":
+					if in.Code == 1 {
+						r.Fault("record-error-whose-Error-panics")
+						func() {
+							defer func() { _ = recover() }()
+							sp.RecordError(panickyErr{})
+						}()
+						break
+					}
 					sp.RecordError(errors.New(in.Arg))
 				case "isrecording":
 					out.Recording = sp.IsRecording()
